@@ -48,7 +48,9 @@ DATA_OPS = ["DB", "DW", "DD", "DQ", "DT", "DO", "DN", "DS", "DC.B", "DC.W", "DC.
             "DC.P", "DC.C", "DS.B", "DS.W", "DS.L", "BYT", "FCB", "FCC", "FDB", "ADR", "DFS", "RMB", "BYTE", "WORD",
             "LONG", "BSS", "DATA", "RES", "ZERO", "FLOAT", "DOUBLE", "SINGLE", "EXTENDED", "STRING", "PSTRING", "FILL",
             "DEFB", "DEFW", "DEFS", "DEFM", "DM", "ASCII", "ASCIZ", "PACKED", "F32", "F64", "D32", "D64"]
-ARGPOOL = ["", "0", "-1", "1", "2", "255", "256", "65535", "65536", "$7fffffff", "0x7fffffff", "7fffffffh",
+LONGNAMES = ["a" * 255, "b" * 1023, "c" * 1024, "d" * 1025, "e" * 1100 + "{x}", "{x}" + "f" * 1030, "g" * 600 + "{x}" + "h" * 600 + "{x}",
+             "i" * 2100, '"' + "j" * 1100 + '"', "k" * 1020 + "{s}", "l.m" * 400]
+ARGPOOL = LONGNAMES + ["", "0", "-1", "1", "2", "255", "256", "65535", "65536", "$7fffffff", "0x7fffffff", "7fffffffh",
            "$ffffffffffffffff", "-9223372036854775808", "9223372036854775807", "?", '""', '"a"', "'a'", "'", '"',
            '"' + "x" * 255 + '"', "(((((1)))))", "((", "))", "[", "]", "[1]", "{", "}", "{x}", "1,", ",x", ",", ",,",
            "x", "x,y", "x:y", "b:$80", "*", "$", ".", "..", "1/0", "1%0", "-9223372036854775808/-1", "1<<64", "1>>-1",
@@ -62,7 +64,9 @@ ARGPOOL = ["", "0", "-1", "1", "2", "255", "256", "65535", "65536", "$7fffffff",
            "68000", "z80", "xyz", "MOMCPU", "MOMPASS", "MOMFILE", "MOMLINE", "MOMSECTION", "__LINE__", "1.0", "-0.0",
            "1.5e3", "'ab'", "'abcd'", "'abcdefghi'", "\"\\\"\"", "\t", "  ", "a b", "parent0", "x[parent0]", "x[]",
            "x[y]", "x[", "$$x", "+", "-", "/", "++", "--", "//", ".x"]
-CONSTRUCT_LINES = ["m macro a,b", "m macro", " endm", "m macro a,{GLOBAL}", "m macro a=1,b,{GLOBAL:s}", "m macro {PUBLIC}",
+CONSTRUCT_LINES = ['s equ "' + "s" * 900 + '"', " section {s}" + "b" * 200 + "{s}", " endsection {s}" + "b" * 200 + "{s}",
+                   "n" * 1030 + "{s}:", "o" * 1024 + " equ 1", " section " + "p" * 1100, "q{s}{s} set 2", "{s}" + "r" * 300 + " macro",
+                   "m macro a,b", "m macro", " endm", "m macro a,{GLOBAL}", "m macro a=1,b,{GLOBAL:s}", "m macro {PUBLIC}",
                    "m macro a,{PUBLIC:s},{EXPORT}", "m macro a,{NOEXPAND},{INTLABEL}", "m macro a,{EXPIF},{NOEXPMACRO}",
                    "m macro a,b,{GLOBALSYMBOLS},{EXPREST}", " s_m 1", " m a=2", " section t", " public x:parent",
                    " global x", " forward x", " if 1", " if 0", " else", " elseif 1", " endif", " switch 1",
